@@ -22,7 +22,7 @@ from multiprocessing import Pool
 
 from .. import tlc, upj, simobs
 from ..common import MachineryError, time_limit, ImplTimeout, call_limited
-from ..gen import Gen, ground_actions
+from ..gen import Gen, ground_actions, num
 from ..upj import E, OV, TRUE_E
 
 WORKERS = 8
@@ -134,10 +134,126 @@ def coupled_invariant(rng, P):
             P["invariants"].append(E("le", [E("minus", [fx, fy]), num(0)]))
 
 
+def _fluent_names(e, acc):
+    if e["op"] == "fluent":
+        acc.add(e["name"])
+    for x in e["args"]:
+        _fluent_names(x, acc)
+
+
+def _mentions(a):
+    """names of the fluents an action mentions anywhere"""
+    acc = set()
+    for e in a["pre"]:
+        _fluent_names(e, acc)
+    for ef in a["effects"]:
+        acc.add(ef["f"]["name"])
+        for x in ef["f"]["args"]:
+            _fluent_names(x, acc)
+        _fluent_names(ef["c"], acc)
+        _fluent_names(ef["v"], acc)
+    return acc
+
+
+def forall_overlap(g, P):
+    """a deliberate overlap that exists only after the expansion of a forall effect (the counterpart, for
+    effects, of the quantified precondition of IGen.action): some action A gets one more effect
+        forall w: [if c] tf(.., w, ..) := / += / -= v
+    where v and/or c read rf(.., w, ..) -- a parameterised fluent that ANOTHER action writes and that A
+    does not mention otherwise, so that the ground reads rf(o1), rf(o2), .. of A exist only through the
+    quantified variable.  All shapes the grammar has: Boolean / numeric / object-valued targets, assign /
+    increase / decrease, the read in the value, in the condition or in both, other arguments objects or
+    parameters.  Returns (name of A, names of the other writers of rf) or None."""
+    r = g.r
+    g.P = P
+    fl = {f["name"]: f for f in P["fluents"]}
+    writers = {}
+    for a in P["actions"]:
+        for ef in a["effects"]:
+            writers.setdefault(ef["f"]["name"], set()).add(a["name"])
+    cands = []
+    for a in P["actions"]:
+        seen = _mentions(a)
+        for tf in P["fluents"]:
+            for k, tp in enumerate(tf["sig"]):
+                vt = tp["type"]
+                for rf in P["fluents"]:
+                    if rf["name"] == tf["name"] or rf["name"] in seen or not (writers.get(rf["name"], set()) - {a["name"]}):
+                        continue
+                    for j, rp in enumerate(rf["sig"]):
+                        if not g.compatible(rp["type"]["name"], vt["name"]):
+                            continue
+                        tk, rk = tf["type"]["k"], rf["type"]["k"]
+                        value_ok = (tk == "bool" or (tk == "int" and rk == "int") or (tk == "real" and rk in ("int", "real"))
+                                    or (tk == "user" and rk == "user" and g.compatible(tf["type"]["name"], rf["type"]["name"])))
+                        # targets that the action writes already, or that nobody else writes, first
+                        own = tf["name"] in seen or not (writers.get(tf["name"], set()) - {a["name"]})
+                        cands += [(a, tf, k, rf, j, value_ok)] * (3 if own else 1)
+    r.shuffle(cands)
+    for a, tf, k, rf, j, value_ok in cands[:6]:
+        params = {p["name"]: p["type"] for p in a["params"]}
+        vt = tf["sig"][k]["type"]
+
+        def app(f, pos):
+            args = []
+            for i, p in enumerate(f["sig"]):
+                x = E("var", name="w") if i == pos else g.obj_term(p["type"]["name"], params, {}, 0)
+                if x is None:
+                    return None
+                args.append(x)
+            return E("fluent", args, name=f["name"])
+
+        target, read = app(tf, k), app(rf, j)
+        if target is None or read is None:
+            continue
+        rk, tk = rf["type"]["k"], tf["type"]["k"]
+        if rk == "bool":
+            atom = read if r.random() < 0.6 else E("not", [read])
+        elif rk == "user":
+            o = g.obj_term(rf["type"]["name"], params, {}, 0)
+            if o is None:
+                continue
+            atom = E("eq", [read, o])
+        else:
+            c0 = num(r.choice([0, 1, 1, 2]))
+            atom = E(r.choice(["le", "lt"]), r.choice([[read, c0], [c0, read]]))
+        channel = r.choice(["value", "value", "value", "cond", "cond", "both"])
+        if not value_ok:
+            channel = "cond"
+        kind = "assign"
+        if tk in ("int", "real") and r.random() < 0.5:
+            kind = r.choice(["inc", "dec"])
+        if channel == "cond":
+            if tk in ("int", "real") and kind != "assign":
+                v = num(r.choice([1, 1, 2]))
+            else:
+                v = E("const", v=g.const_of_type(tf["type"]))
+        elif tk == "bool":
+            v = atom if rk != "bool" or r.random() < 0.5 else read
+        elif tk == "user":
+            v = read
+        else:
+            q = r.random()
+            v = read if q < 0.5 else (E("plus", [read, num(r.choice([1, 2]))]) if q < 0.75 else
+                                      (E("minus", [num(r.choice([1, 3])), read]) if q < 0.9 else E("times", [read, num(2)])))
+        c = atom if channel in ("cond", "both") else TRUE_E
+        ef = {"kind": kind, "f": {"name": target["name"], "args": target["args"]}, "v": v, "c": c,
+              "forall": [{"name": "w", "type": vt}]}
+        effects = g.drop_static_conflicts(a["effects"] + [ef])
+        if not any(x is ef for x in effects):
+            continue
+        a["effects"] = effects
+        return a["name"], sorted(writers[rf["name"]] - {a["name"]})
+    return None
+
+
 def gen_corpus(rng, n):
     """the corpus: mostly invariant-free problems; every 6th has state invariants (the grammar's own
-    and/or one coupling two actions), every 7th undefined initial values"""
+    and/or one coupling two actions), every 7th undefined initial values; every 2nd gets a forall effect
+    that reads, through its quantified variable, a fluent another action writes (forall_overlap).
+    Returns the problems and, per id(problem), the action names find_plans keeps in the menu."""
     out = []
+    hints = {}
     for i in range(n):
         opts = {}
         if i % 6 == 5:
@@ -151,11 +267,15 @@ def gen_corpus(rng, n):
             P = g.problem()
             if len(ground_actions(P)) >= 5 and all(a["effects"] for a in P["actions"]):
                 break
+        if i % 2 == 1:
+            h = forall_overlap(g, P)
+            if h:
+                hints[id(P)] = h
         if opts.get("invariants"):
             if not P["invariants"] or rng.random() < 0.7:
                 coupled_invariant(rng, P)
         out.append(P)
-    return out
+    return out, hints
 
 
 def _try_build(P):
@@ -186,7 +306,7 @@ def buildable(corpus):
 _DUMP_STATE = re.compile(r"^State \d+:\s*$", re.M)
 
 
-def find_plans(ctx, corpus, L, M):
+def find_plans(ctx, corpus, L, M, hints=None):
     """returns probs (the table handed to both TLC runs) and, per pid, the list of
     (plan as menu indices, goal reached, final state as TLA+ text)"""
     rng = ctx.rng
@@ -196,6 +316,13 @@ def find_plans(ctx, corpus, L, M):
         if len(gas) > M:
             # the two actions of a coupled invariant stay in the menu
             keep = [j for j, g in enumerate(gas) if g["a"] in ("ia", "ib")]
+            # and so do one instance of the action with the forall overlap and one of a writer of what it reads
+            h = (hints or {}).get(id(P))
+            if h:
+                for names in ([h[0]], h[1]):
+                    js = [j for j, g in enumerate(gas) if g["a"] in names and j not in keep]
+                    if js and len(keep) < M:
+                        keep.append(rng.choice(js))
             rest = [j for j in range(len(gas)) if j not in keep]
             gas = [gas[j] for j in sorted(keep + rng.sample(rest, M - len(keep)))]
         probs.append({"pid": i + 1, "P": P, "keys": upj.keys_of(P), "menu": gas, "L": L})
@@ -400,6 +527,7 @@ def digest(ctx, probs, recs, res, label=""):
     info = {}
     fails = []
     unspec = set()
+    sole = {}
     for p in res.printed:
         if not p:
             continue
@@ -411,6 +539,10 @@ def digest(ctx, probs, recs, res, label=""):
             fails.append(p)
         elif p[0] == "U":
             unspec.add((p[1], p[2]))
+        elif p[0] == "SOLE":
+            sole.setdefault(p[2], set()).add(p[1])
+        elif p[0] == "CHERR":
+            raise MachineryError("Deorder.tla: the channel split of Reads does not add up (record %s, step %s)" % (p[1], p[2]))
     if set(info) != set(byid):
         raise MachineryError("judge classified %d of %d records" % (len(info), len(byid)))
     bad = [i for i, x in info.items() if x["cls"] in ("not-valid", "unspec-plan", "not-distinct")]
@@ -441,16 +573,18 @@ def digest(ctx, probs, recs, res, label=""):
             if rid in design_fails:
                 sig += "|minimal-order-fails-too"
             ctx.violation(sig, "deordered plan: %s" % clause, data)
+    # evidence printed by TLC: records with a dependent pair that is dependent through one channel alone
+    ctx.cov["sole_channel_witnesses" + label] = {ch: len(ids) for ch, ids in sorted(sole.items())}
     ctx.cov["unspecified"] += len(unspec) + sum(1 for x in info.values() if x["cls"] == "nested-rejected")
     return info
 
 
 def pipeline(ctx, n, M, per_problem, L=5):
-    corpus = gen_corpus(ctx.rng, n)
-    corpus, skipped = buildable(corpus)
+    corpus, hints = gen_corpus(ctx.rng, n)
+    corpus, skipped = buildable(corpus)     # the same objects: hints stay valid
     if not corpus:
         raise MachineryError("no generated problem could be built")
-    probs, found = find_plans(ctx, corpus, L, M)
+    probs, found = find_plans(ctx, corpus, L, M, hints)
     recs = select_plans(ctx.rng, probs, found, per_problem, 2)
     if not recs:
         raise MachineryError("TLC found no executable plan of length >= 2")
